@@ -295,6 +295,43 @@ func runC09(p *Program, r *Result) {
 
 	// ---- R09.3
 	r.Rule("R09.3", "Decode's rejections", 7)
+	checkDecodeGuards(p, r, dec, cb)
+
+	// ---- R09.4 / R09.7 recipes
+	r.Rule("R09.4", "exact HRP and length checks; printing uses the table's HRPs", 6)
+	checkSites(p, r, recipeSites, "C09")
+
+	// ---- R09.5
+	r.Rule("R09.5", "BIP-173 constants", 5)
+	checkConsts(p, r, []ConstSite{
+		{"bech32.charset", pkgBech32, "charset", "var"},
+		{"bech32.generator", pkgBech32, "generator", "var"},
+	})
+	{
+		// polymod: initial value 1; verify == 1; create xor 1; checksum length 6
+		for _, site := range []Site{
+			{Key: "bech32.verifyChecksum.result", Pkg: pkgBech32, Func: "verifyChecksum", What: "ret:0"},
+			{Key: "bech32.createChecksum.values", Pkg: pkgBech32, Func: "createChecksum", What: "arg:bech32.polymod:0"},
+			{Key: "bech32.hrpExpand.result", Pkg: pkgBech32, Func: "hrpExpand", What: "ret:0"},
+		} {
+			got, pos, _, err := p.Extract(site)
+			sub := pkgBech32 + "." + site.Func
+			if err != nil {
+				r.Unk(sub, "recipe:"+site.Key, "", err.Error())
+				continue
+			}
+			want := specRecipe(r, site.Key)
+			r.Check(got == want, sub, "recipe:"+site.Key, pos, got, "got  "+got+"\n   want "+want)
+		}
+	}
+
+	// ---- R09.6
+	r.Rule("R09.6", "plugin names are validated on every successful parse and encode", 4)
+	checkPluginNameValidated(p, r)
+}
+
+// checkDecodeGuards is rule R09.3 (shared with C18 R18.6).
+func checkDecodeGuards(p *Program, r *Result, dec, cb *ssa.Function) {
 	{
 		tb := p.TB(dec)
 		ret, err := successReturn(dec)
@@ -380,35 +417,4 @@ func runC09(p *Program, r *Result) {
 		r.Check(n >= 2, cb.String(), "padding", "", "two error returns on the !pad path (surplus bits, non-zero padding)", "convertBits has fewer than two padding rejections on the !pad path")
 	}
 
-	// ---- R09.4 / R09.7 recipes
-	r.Rule("R09.4", "exact HRP and length checks; printing uses the table's HRPs", 6)
-	checkSites(p, r, recipeSites, "C09")
-
-	// ---- R09.5
-	r.Rule("R09.5", "BIP-173 constants", 5)
-	checkConsts(p, r, []ConstSite{
-		{"bech32.charset", pkgBech32, "charset", "var"},
-		{"bech32.generator", pkgBech32, "generator", "var"},
-	})
-	{
-		// polymod: initial value 1; verify == 1; create xor 1; checksum length 6
-		for _, site := range []Site{
-			{Key: "bech32.verifyChecksum.result", Pkg: pkgBech32, Func: "verifyChecksum", What: "ret:0"},
-			{Key: "bech32.createChecksum.values", Pkg: pkgBech32, Func: "createChecksum", What: "arg:bech32.polymod:0"},
-			{Key: "bech32.hrpExpand.result", Pkg: pkgBech32, Func: "hrpExpand", What: "ret:0"},
-		} {
-			got, pos, _, err := p.Extract(site)
-			sub := pkgBech32 + "." + site.Func
-			if err != nil {
-				r.Unk(sub, "recipe:"+site.Key, "", err.Error())
-				continue
-			}
-			want := specRecipe(r, site.Key)
-			r.Check(got == want, sub, "recipe:"+site.Key, pos, got, "got  "+got+"\n   want "+want)
-		}
-	}
-
-	// ---- R09.6
-	r.Rule("R09.6", "plugin names are validated on every successful parse and encode", 4)
-	checkPluginNameValidated(p, r)
 }
